@@ -283,6 +283,11 @@ def gen_extra(ctx):
             for (r, c) in [(9, 12), (12, 9), (2, 0)]:
                 for op in ["madd", "msub", "mscale", "maxpy", "meq", "mneg"] + (["transposed"] if c else []):
                     emit(op, "DM", "DM", r, c, 0, [g.scalar()] + M(r, c, 97) + M(r, c, 103))
+            for n in list(S) + [6]:
+                for op in ("xselfleft", "xselfright"):
+                    emit(op, "DM", "DM", n, n, 0, M(n, n, 97))
+                    if n <= MAXN:
+                        emit(op, "FM", "FM", n, n, 0, M(n, n, 97))
             emit("leftmultiply", "DM", "DM", 9, 12, 0, M(9, 12, 97) + M(9, 9, 101))
             emit("rightmultiply", "DM", "DM", 12, 9, 0, M(12, 9, 97) + M(9, 9, 101))
             # every pair of representations through the generic DenseMatrix paths, non-square receivers
@@ -334,6 +339,9 @@ def gen_extra(ctx):
                             if f in ("D", "C"):
                                 emit("xmixmul", "FM", "FM", n, c, p, [g.scalar()] + MS(n, c, 97) + M(c, p, 101))
             for n in dynv:
+                emit("xvself", "DV", "DV", n, 0, 0, [g.scalar()] + g.vec(n, 101))
+                if 1 <= n <= MAXN:
+                    emit("xvself", "FV", "FV", n, 0, 0, [g.scalar()] + g.vec(n, 101))
                 emit("xfill", "DV", "DV", n, 0, 0, [g.scalar()] + g.vec(n, 101))
                 emit("xcopy", "DV", "DV", n, 0, 0, [g.scalar()] + g.vec(n, 101))
                 emit("xvaccess", "DV", "DV", n, 0, 0, [g.scalar()] + g.vec(n, 101) + g.vec(n, 103))
@@ -454,7 +462,12 @@ def run_split(ctx, exes, cases, tag):
     return res
 
 
+def params_hook(ctx):
+    V.sh([sys.executable, os.path.join(V.VERIF, "tools", "extract_params.py"), ctx.repo], check=True)
+
+
 def run(ctx):
+    ctx.params_hook = params_hook      # tokens of the kernels re-read from the source (tools/params.d/C01.py)
     V.coq_stage(ctx)
     model = V.build_model(ctx)
     cases = gen(ctx)
@@ -484,13 +497,17 @@ def run(ctx):
         fields[f] = fields.get(f, 0) + 1
         shapes["%dx%dx%d" % (r, cc, p)] = shapes.get("%dx%dx%d" % (r, cc, p), 0) + 1
         mm, _, spec = m.partition(" | ")
-        if mm != spec:
+        if mm != spec and a != mm:
+            # the model differs from the definition AND does not predict the implementation: the model itself is off
+            # (where the model is the literal transcription of a known defect, e.g. the view operator+ of F-C01-4, it differs
+            # from the spec but agrees with the implementation: that case is judged by the oracle below like any other)
             ndrift += 1
             if ndrift <= 5:
                 ctx.notes.append("model/spec mismatch on %s: %s vs %s" % (c, mm, spec))
                 ctx.violation("corr:C01/model-vs-spec:%s" % op, {"broken": "theorem reading: extracted model and extracted spec differ",
-                                                                   "case": c, "model": mm, "spec": spec}, found_input=False)
-            continue
+                                                                   "case": c, "impl": a, "model": mm, "spec": spec}, found_input=False)
+            if oracle_line(a, spec) is None:
+                continue
         reason = oracle_line(a, spec)
         if reason is not None:
             nrej += 1
@@ -529,6 +546,7 @@ def run(ctx):
         "translation_units": len(exes), "sanitizer_translation_units": len(san_exes), "sanitizer_cases": len(san_idx),
         "impl_model_disagreements": ndis, "oracle_rejections": nrej, "model_spec_mismatches": ndrift,
         "compile_probes": probes,
+        "source_tokens": {k: v for k, v in json.load(open(os.path.join(V.VERIF, "build", "params_report.json"))).items() if k.startswith("c01_")},
         "exhaustive": False, "traces_validated_against_impl": len(cases),
     })
     ctx.assumptions += ["doubles / complex<double> hold integers of magnitude < 2^53 so that floating-point arithmetic is exact on the generated cases",
